@@ -62,12 +62,47 @@ func newE2EServer() *e2eServer {
 		}
 		switch parts[0] {
 		case "b":
+			// unknown length: flushed in two parts, so net/http sends it chunked
 			w.Header().Set("X-Served", "body")
 			w.WriteHeader(200)
+			b := e2eBody(n)
+			w.Write(b[:n/2])
+			if f, ok := w.(http.Flusher); ok {
+				f.Flush()
+			}
+			w.Write(b[n/2:])
+		case "c":
+			// declared length (a HEAD request gets the same headers and no body)
+			w.Header().Set("X-Served", "body")
+			w.Header().Set("Content-Length", strconv.Itoa(n))
+			w.WriteHeader(200)
 			w.Write(e2eBody(n))
+		case "raw", "short":
+			// written by hand: close-delimited body without any length ("raw"), or a declared
+			// length that is 50 bytes more than what is delivered before the close ("short")
+			hj, ok := w.(http.Hijacker)
+			if !ok {
+				w.WriteHeader(500)
+				return
+			}
+			conn, buf, err := hj.Hijack()
+			if err != nil {
+				return
+			}
+			head := "HTTP/1.1 200 OK\r\nConnection: close\r\nX-Served: body\r\n"
+			if parts[0] == "short" {
+				head += "Content-Length: " + strconv.Itoa(n+50) + "\r\n"
+			}
+			buf.WriteString(head + "\r\n")
+			if r.Method != "HEAD" {
+				buf.Write(e2eBody(n))
+			}
+			buf.Flush()
+			conn.Close()
 		case "s":
+			w.Header().Set("X-Served", "status")
 			w.WriteHeader(n)
-			w.Write([]byte("status body"))
+			w.Write([]byte("status body")) // refused by net/http for 204 and 304
 		case "slow":
 			// a few bytes, then nothing until the client gives up: the body fails midway
 			w.Header().Set("Content-Length", "1000")
@@ -120,6 +155,16 @@ func runE2E(c *run.Ctx, s *kit.Summary) {
 		{name: "nofollow", args: []string{"-redirects", "-1", "-max-body", "-1"}, path: "/r/3", method: "GET", maxBody: -1, redirects: -1},
 		{name: "maxbody0_404", args: []string{"-max-body", "0"}, path: "/s/404", method: "PUT", body: "x", maxBody: 0, redirects: 10},
 		{name: "timeout_midbody", args: []string{"-timeout", "300ms", "-name", "e2e-t"}, path: "/slow/1", method: "POST", body: "abc", maxBody: -1, attack: "e2e-t", redirects: 10},
+		{name: "head_declared_length", args: nil, path: "/c/1000", method: "HEAD", maxBody: -1, redirects: 10},
+		{name: "head_declared_length_maxbody", args: []string{"-max-body", "2000"}, path: "/c/1000", method: "HEAD", maxBody: 2000, redirects: 10},
+		{name: "head_chunked", args: nil, path: "/b/100", method: "HEAD", maxBody: -1, redirects: 10},
+		{name: "delete_body_declared", args: nil, path: "/c/50", method: "DELETE", body: "del", maxBody: -1, redirects: 10},
+		{name: "options_chunked", args: nil, path: "/b/3000", method: "OPTIONS", maxBody: -1, redirects: 10},
+		{name: "patch_close_delimited", args: []string{"-max-body", "300"}, path: "/raw/300", method: "PATCH", body: "p", maxBody: 300, redirects: 10},
+		{name: "put_declared_maxbody_smaller", args: []string{"-max-body", "10"}, path: "/c/1000", method: "PUT", body: "put", maxBody: 10, redirects: 10},
+		{name: "get_declared_longer_than_delivered", args: nil, path: "/short/100", method: "GET", maxBody: -1, redirects: 10},
+		{name: "get_204", args: nil, path: "/s/204", method: "GET", maxBody: -1, redirects: 10},
+		{name: "get_304", args: nil, path: "/s/304", method: "GET", maxBody: -1, redirects: 10},
 		{name: "maxbody_exact", args: []string{"-max-body", "70000"}, path: "/b/70000", method: "GET", maxBody: 70000, redirects: 10},
 	}
 	for _, rn := range runs {
@@ -175,13 +220,23 @@ func runE2E(c *run.Ctx, s *kit.Summary) {
 			wantCode := 200
 			wantErrEmpty := true
 			policyStop := false
+			failMid := false // the body ends with an error after some bytes
+			num := func() int { k, _ := strconv.Atoi(rn.path[strings.LastIndex(rn.path, "/")+1:]); return k }
 			switch {
-			case strings.HasPrefix(rn.path, "/b/"):
-				k, _ := strconv.Atoi(rn.path[3:])
-				sent = e2eBody(k)
+			case strings.HasPrefix(rn.path, "/b/"), strings.HasPrefix(rn.path, "/c/"), strings.HasPrefix(rn.path, "/raw/"):
+				sent = e2eBody(num())
+			case strings.HasPrefix(rn.path, "/short/"):
+				sent = e2eBody(num())
+				failMid = rn.method != "HEAD"
+			case strings.HasPrefix(rn.path, "/slow/"):
+				sent = []byte("hello")
+				failMid = true
 			case strings.HasPrefix(rn.path, "/s/"):
-				wantCode, _ = strconv.Atoi(rn.path[3:])
+				wantCode = num()
 				sent = []byte("status body")
+				if wantCode == 204 || wantCode == 304 {
+					sent = nil
+				}
 				wantErrEmpty = wantCode >= 200 && wantCode < 400
 			case strings.HasPrefix(rn.path, "/r/"):
 				k, _ := strconv.Atoi(rn.path[3:])
@@ -195,25 +250,29 @@ func runE2E(c *run.Ctx, s *kit.Summary) {
 					sent = []byte("landed")
 				}
 			}
+			if rn.method == "HEAD" {
+				sent = nil // the answer to HEAD has headers (and a declared length) but no body
+			}
 			if r.Attack != rn.attack {
 				viol("cli_attack_name", "result does not carry the attack name", rn.attack, r.Attack)
 			}
 			if r.Method != rn.method || r.URL != es.srv.URL+rn.path {
 				viol("cli_method_url", "result does not carry the target's method and URL", rn.method+" "+rn.path, r.Method+" "+r.URL)
 			}
-			if strings.HasPrefix(rn.path, "/slow/") {
-				// body read error after 5 bytes (client timeout while reading the body)
+			if failMid {
+				// body read error midway (client timeout while reading, or the connection closed
+				// before the declared length was delivered)
 				if r.Error == "" || (r.Code >= 200 && r.Code < 400) {
 					viol("cli_failed_exchange", "body failed midway but the result has no error / a success status", "error, no success code", fmt.Sprint(r.Code, " ", r.Error))
 				}
-				if !strings.HasPrefix("hello", string(r.Body)) {
-					viol("cli_max_body", "captured body is not a prefix of what the server sent", "prefix of hello", string(r.Body))
+				if !strings.HasPrefix(string(sent), string(r.Body)) {
+					viol("cli_max_body", "captured body is not a prefix of what the server sent", fmt.Sprintf("prefix of %d bytes", len(sent)), fmt.Sprintf("%d bytes", len(r.Body)))
 				}
 				if r.BytesIn != uint64(len(r.Body)) || r.BytesOut != uint64(len(rn.body)) {
 					viol("hit_body_read_error_byte_counts", "body read error: bytes-in differs from the captured length or bytes-out from the request body length",
 						fmt.Sprint(len(r.Body), len(rn.body)), fmt.Sprint(r.BytesIn, r.BytesOut))
 				}
-				s.Count(fmt.Sprintf("e2e:timeout_midbody_captured=%d", len(r.Body)))
+				s.Count(fmt.Sprintf("e2e:%s_captured=%d", rn.name, len(r.Body)))
 			} else if policyStop {
 				if r.Error == "" || (r.Code >= 200 && r.Code < 400) {
 					viol("cli_redirects", "redirect limit exceeded but the result has no error / a success status", "error, no success code", fmt.Sprint(r.Code, " ", r.Error))
@@ -237,7 +296,7 @@ func runE2E(c *run.Ctx, s *kit.Summary) {
 				if r.BytesIn != uint64(len(r.Body)) || r.BytesOut != uint64(len(rn.body)) {
 					viol("cli_byte_counts", "bytes-in / bytes-out differ from captured length / request body length", fmt.Sprint(len(r.Body), len(rn.body)), fmt.Sprint(r.BytesIn, r.BytesOut))
 				}
-				if wantCode == 200 && strings.HasPrefix(rn.path, "/b/") && r.Headers.Get("X-Served") != "body" {
+				if wantCode == 200 && !strings.HasPrefix(rn.path, "/r/") && r.Headers.Get("X-Served") != "body" {
 					viol("cli_headers", "result does not carry the response headers", "X-Served: body", fmt.Sprint(r.Headers))
 				}
 			}
